@@ -125,8 +125,9 @@ type Response struct {
 	Status      string // "200", "default"
 	Node        M
 	Headers     []Header
-	ContentType string // "" when no content
-	Schema      M      // dereferenced; nil when no JSON schema
+	ContentType string   // "" when no content
+	MediaTypes  []string // every declared media type, sorted
+	Schema      M        // dereferenced; nil when no JSON schema
 	JSON        bool
 	RefChain    []string
 }
@@ -247,6 +248,7 @@ func (d *Doc) Operations() []Operation {
 					r.Headers = append(r.Headers, h)
 				}
 				content := asM(rn["content"])
+				r.MediaTypes = SortedKeys(content)
 				if mt, ok := content["application/json"]; ok {
 					r.ContentType = "application/json"
 					r.JSON = true
